@@ -23,7 +23,7 @@ from __future__ import annotations
 
 import math
 import sys
-from decimal import Decimal
+from decimal import Decimal, getcontext
 from fractions import Fraction
 from pathlib import Path
 
@@ -34,7 +34,8 @@ PROP = 'C08'
 
 # --------------------------------------------------------------------------------------
 # AST
-#   atoms : ('i', int) ('d', 'nan'|'inf'|'-inf'|(m, k)) ('s', str) ('b', bool)
+#   atoms : ('i', int) ('d', 'nan'|'inf'|'-inf'|'-0'|(m, k)) ('s', str) ('b', bool)
+#           ('q', (m, k)) xs:decimal m/10^k   ('u', str) xs:untypedAtomic   ('n', idx) node (only in contexts)
 #   exprs : ('lit', atom) ('empty',) ('var', id) ('dot',) ('pos',) ('last',)
 #           ('comma', a, b) ('to', a, b) ('filter', e, p) ('map', a, b)
 #           ('for'|'some'|'every', [(id, e), ...], body)
@@ -49,6 +50,25 @@ def Dd(x):
     if isinstance(x, str):
         return ('lit', ('d', x))
     return ('lit', ('d', frac_to_mk(Fraction(x))))
+
+
+def Q(txt):
+    """xs:decimal literal from its lexical form, e.g. Q('2.50')"""
+    d = Decimal(txt)
+    sign, digits, exp = d.as_tuple()
+    m = int(''.join(map(str, digits))) * (-1 if sign else 1)
+    if exp > 0:
+        m *= 10 ** exp
+        exp = 0
+    return ('lit', ('q', (m, -exp)))
+
+
+def U(s): return ('lit', ('u', s))
+def Dx(f: float):
+    """double literal from any finite python float (exact binary value)"""
+    if f == 0 and math.copysign(1, f) < 0:
+        return ('lit', ('d', '-0'))
+    return ('lit', ('d', frac_to_mk(Fraction(f))))
 
 
 EMPTY = ('empty',)
@@ -89,6 +109,12 @@ def atom_wire(a) -> str:
         return 'b:1' if v else 'b:0'
     if t == 's':
         return 's:' + '.'.join(format(ord(c), 'x') for c in v)
+    if t == 'u':
+        return 'u:' + '.'.join(format(ord(c), 'x') for c in v)
+    if t == 'n':
+        return f'n:{v}'
+    if t == 'q':
+        return f'q:{v[0]}/{v[1]}'
     if t == 'd':
         if isinstance(v, str):
             return 'd:' + v
@@ -139,6 +165,8 @@ def dbl_text(v) -> str:
         return "xs:double('INF')"
     if v == '-inf':
         return "xs:double('-INF')"
+    if v == '-0':
+        return '(-0e0)'
     m, k = v
     fr = Fraction(m, 1 << k)
     # exact decimal expansion of a dyadic rational
@@ -164,6 +192,16 @@ def atom_text(a) -> str:
         return 'true()' if v else 'false()'
     if t == 's':
         return "'" + v.replace("'", "''") + "'"
+    if t == 'u':
+        return "xs:untypedAtomic('" + v.replace("'", "''") + "')"
+    if t == 'q':
+        m, k = v
+        sgn = '-' if m < 0 else ''
+        digits = str(abs(m)).rjust(k + 1, '0')
+        body = digits[:len(digits) - k] + '.' + (digits[len(digits) - k:] if k else '0')
+        return f'(-{body})' if sgn else body
+    if t == 'n':
+        raise ValueError('a node has no literal form')
     return dbl_text(v)
 
 
@@ -338,9 +376,37 @@ def parser_class(v: str):
     return _PARSERS[v]
 
 
+DOC_XML = '<r><a>1</a><b>x</b><a>2.5</a><c><a>1</a></c><b/><a>x</a><b>1</b></r>'
+_DOC = {}
+
+
+def document():
+    """the small document whose elements are the node items: (root, elements in pre-order, string values)"""
+    if not _DOC:
+        from xml.etree import ElementTree as ET
+        root = ET.fromstring(DOC_XML)
+        nodes = list(root.iter())
+        _DOC.update(root=root, nodes=nodes, strings=[''.join(e.itertext()) for e in nodes],
+                    index={id(e): i for i, e in enumerate(nodes)})
+    return _DOC
+
+
+def doc_field() -> str:
+    return 'doc=' + '|'.join(('.'.join(format(ord(c), 'x') for c in sv) or '-') for sv in document()['strings'])
+
+
 def atom_py(a):
     t, v = a
+    if t == 'n':
+        return document()['nodes'][v]
+    if t == 'q':
+        return Decimal(v[0]).scaleb(-v[1])
+    if t == 'u':
+        from elementpath.datatypes import UntypedAtomic
+        return UntypedAtomic(v)
     if t == 'd':
+        if v == '-0':
+            return -0.0
         if isinstance(v, str):
             return float(v)
         f = float(Fraction(v[0], 1 << v[1]))
@@ -359,27 +425,36 @@ def canon_item(x) -> str:
             return 'd:nan'
         if math.isinf(x):
             return 'd:inf' if x > 0 else 'd:-inf'
-        m, k = norm_mk(*frac_to_mk(Fraction(x)))     # exact; -0.0 is reported as 0
+        if x == 0 and math.copysign(1, x) < 0:
+            return 'd:-0'
+        m, k = norm_mk(*frac_to_mk(Fraction(x)))     # exact
         return f'd:{m}/{k}'
     if isinstance(x, str):
         return 's:' + '.'.join(format(ord(c), 'x') for c in x)
     if isinstance(x, Decimal):
-        return 'x:' + canon_decimal(x)
+        if not x.is_finite():
+            return f'?Decimal:{x}'
+        fr = Fraction(x)
+        k = 0
+        while fr.denominator != 1:
+            fr *= 10
+            k += 1
+        return f'q:{fr.numerator}/{k}'               # exact value, trailing zeros dropped
+    if type(x).__name__ == 'UntypedAtomic':
+        return 'u:' + '.'.join(format(ord(c), 'x') for c in x.value)
+    idx = document()['index'].get(id(x))
+    if idx is not None:
+        return f'n:{idx}'
     return f'?{type(x).__name__}'
-
-
-def canon_decimal(d: Decimal) -> str:
-    if d == d.to_integral_value():
-        return str(int(d))
-    return str(d.normalize())
 
 
 def run_impl(expr_text: str, ctx, pv: str) -> str:
     import elementpath
     item, pos, size, variables = ctx
     try:
-        r = elementpath.select(None, expr_text, parser=parser_class(pv), item=atom_py(item), position=pos,
-                               size=size, variables={f'v{k}': [atom_py(a) for a in v] for k, v in variables.items()})
+        r = elementpath.select(document()['root'], expr_text, parser=parser_class(pv), item=atom_py(item),
+                               position=pos, size=size,
+                               variables={f'v{k}': [atom_py(a) for a in v] for k, v in variables.items()})
     except elementpath.ElementPathError as e:
         code = (getattr(e, 'code', None) or 'NOCODE')
         return 'ERR:' + str(code).split(':')[-1]
@@ -395,32 +470,11 @@ def run_impl(expr_text: str, ctx, pv: str) -> str:
 def ctx_fields(ctx) -> str:
     item, pos, size, variables = ctx
     vs = ';'.join(f'{k}:' + ','.join(atom_wire(a) for a in v) for k, v in sorted(variables.items())) or '_'
-    return f'item={atom_wire(item)} pos={pos} size={size} vars={vs}'
+    return f'item={atom_wire(item)} pos={pos} size={size} vars={vs} ' + doc_field()
 
 
-DEFAULT_CTX = (('i', 7), 2, 3, {0: [('i', 3), ('i', 1), ('i', 2)], 1: [('i', 5)]})
-
-
-def avg_expected(q: str) -> str:
-    """canonical text of the fn:avg result from the exact quotient reported by the driver"""
-    if q == 'E':
-        return '_'
-    if q.startswith('ERR'):
-        return q
-    if q.startswith('I:'):
-        n, d = q[2:].split('/')
-        r = Decimal(int(n)) / Decimal(int(d))            # the 28-digit context of the engine
-        return f'i:{int(r)}' if r % 1 == 0 else 'x:' + canon_decimal(r)
-    if q.startswith('D:'):
-        body, den = q[2:].rsplit('/', 1)
-        den = int(den)
-        v = body[2:]
-        if v in ('nan', 'inf', '-inf'):
-            return 'd:' + v
-        m, k = v.split('/')
-        f = Fraction(int(m), 1 << int(k)) / den
-        return canon_item(float(f))                      # float(Fraction) is correctly rounded
-    return '?' + q
+DEFAULT_CTX = (('i', 7), 2, 3, {0: [('i', 3), ('i', 1), ('i', 2)], 1: [('i', 5)],
+                               2: [('n', 1), ('n', 2), ('n', 3), ('n', 5), ('n', 7)]})
 
 
 # --------------------------------------------------------------------------------------
@@ -438,8 +492,10 @@ class Case:
     def describe(self) -> dict:
         item, pos, size, variables = self.ctx
         return {'xpath': text(self.expr), 'kind': self.kind, 'note': self.note,
-                'context': {'item': atom_text(item), 'position': pos, 'size': size,
-                            'variables': {f'v{k}': [atom_text(a) for a in v] for k, v in variables.items()}},
+                'context': {'item': atom_text(item) if item[0] != 'n' else f'node#{item[1]}', 'position': pos, 'size': size,
+                            'variables': {f'v{k}': [atom_text(a) if a[0] != 'n' else f'node#{a[1]}' for a in v]
+                                          for k, v in variables.items()},
+                            'document': DOC_XML},
                 'driver_line': self.line()}
 
 
@@ -457,7 +513,20 @@ def probe_sequences():
         ('strings', [S('b'), S('a'), S(''), S('b'), S('ab')]),
         ('bools', [B(True), B(False), B(True)]),
         ('mixed', [I(1), S('1'), B(True), Dd(1), S('a'), B(False), I(0)]),
+        ('decimals', [Q('1.5'), I(2), Q('2.50'), Q('-0.5'), Q('1.50'), I(1)]),
+        ('numtower', [I(1), Q('1.0'), Dd(1), Q('2.5'), Dd(2.5), I(3), Dd(-0.5), Dx(0.1), Q('0.1'), Dx(0.2)]),
+        ('zeros', [Dx(-0.0), Dd(0), I(0), Q('0.0'), Dx(-0.0)]),
+        ('negzeros', [Dx(-0.0), Dx(-0.0)]),
+        ('untyped', [U('a'), S('a'), U('1'), I(1), S('1'), U('x'), U('')]),
+        ('bigints', [I(2 ** 53 + 1), Dx(2.0 ** 53), I(2 ** 53), Q('9007199254740993.0'), I(-(2 ** 53) - 1)]),
+        ('thirds', [Q('0.1'), Q('0.2'), Q('0.4')]),
     ]
+
+
+def node_sequences():
+    """node sequences come from variables of the dynamic context: (name, expression, length)"""
+    return [('nodes', ('var', 2), 5), ('nodes-rev', F('reverse', ('var', 2)), 5),
+            ('nodes-mixed', seq([('var', 2), I(1), S('x')]), 7)]
 
 
 def boundary_numbers(n: int):
@@ -514,6 +583,22 @@ def corpus_cases():
         (seq([F('head', ('filter', ('to', I(2), I(2)), I(1))), ('pos',)]), 'F08m'),
         (seq([F('exists', ('filter', ('to', I(2), I(3)), I(1))), ('pos',), ('last',), ('dot',)]), 'F08m'),
         (seq([F('empty', ('map', ('to', I(2), I(3)), ('dot',))), ('pos',), ('last',), ('dot',)]), 'F08m'),
+        (F('index-of', ('var', 2), I(1)), 'F08n'),
+        (F('index-of', seq([U('1'), I(1)]), I(1)), 'F08n'),
+        (F('distinct-values', seq([('var', 2), S('1'), I(1), S('x')])), 'F08n'),
+        (F('distinct-values', seq([I(1), U('1'), S('1')])), 'F08n'),
+        (F('index-of', seq([Q('0.1'), I(1), Q('1.0')]), Dx(0.1)), 'F08o'),
+        (F('index-of', Dx(0.1), Q('0.1')), 'F08o'),
+        (F('index-of', I(2 ** 53 + 1), Dx(2.0 ** 53)), 'F08o'),
+        (F('distinct-values', seq([Dx(2.0 ** 53), I(2 ** 53 + 1)])), 'F08o'),
+        (F('distinct-values', seq([I(2 ** 53 + 1), Dx(2.0 ** 53)])), 'F08o'),
+        (F('distinct-values', seq([Q('0.10000000000000000000001'), Q('0.1')])), 'F08o'),
+        (F('sum', Dx(-0.0)), 'F08p'),
+        (F('sum', seq([Dx(-0.0), Dx(-0.0)])), 'F08p'),
+        (F('avg', seq([Dx(-0.0), Dx(-0.0)])), 'F08p'),
+        (F('sum', seq([Dx(1e100), Dd(1), Dx(-1e100)])), 'F08q'),
+        (F('avg', seq([Dx(1e100), Dd(1), Dx(-1e100)])), 'F08q'),
+        (F('sum', seq([Dd(1), Dx(1e100), Dd(1), Dx(-1e100)])), 'F08q'),
         (('for', [(0, ('var', 0))], ('var', 0)), 'F08b'),
     ]
     return [Case(e, kind='corpus', note=n) for e, n in exprs]
@@ -522,9 +607,9 @@ def corpus_cases():
 def probe_cases(thorough: bool):
     cases = corpus_cases()
     add = lambda e, note='': cases.append(Case(e, kind='probe', note=note))
-    for name, items in probe_sequences():
-        s = seq(items)
-        n = len(items)
+    todo = [(name, seq(items), len(items), items) for name, items in probe_sequences()]
+    todo += [(name, e, n, None) for name, e, n in node_sequences()]
+    for name, s, n, items in todo:
         nums = boundary_numbers(n)
         for a in nums:
             add(F('subsequence', s, a), name)
@@ -550,7 +635,7 @@ def probe_cases(thorough: bool):
                   'exactly-one', 'distinct-values', 'sum', 'avg', 'min', 'max', 'boolean', 'not'):
             add(F(f, s), name)
             add(F(f, F('reverse', s)), name)
-        if all(x[1][0] != 'd' for x in items):
+        if items is None or all(x[1][0] not in ('d', 'q') for x in items):
             add(F('string-join', s), name)
             add(F('string-join', s, S('-')), name)
             add(F('string-join', s, S('')), name)
@@ -560,8 +645,15 @@ def probe_cases(thorough: bool):
         add(F('sum', s, EMPTY), name)
         add(F('sum', s, S('zero')), name)
         for v in [I(1), I(2), Dd(1), Dd('nan'), Dd('inf'), S('b'), S('1'), B(True), I(0), Dd(2.5), EMPTY,
-                  seq([I(1), I(2)])]:
+                  seq([I(1), I(2)]), Q('1.0'), Q('2.50'), Dx(0.1), Q('0.1'), U('1'), U('a'), S('a'), S('x'), Dx(-0.0),
+                  Q('0.0'), I(2 ** 53 + 1), Dx(2.0 ** 53), ('filter', ('var', 2), I(2)), ('filter', ('var', 2), I(1))]:
             add(F('index-of', s, v), name)
+        for v in [Q('1.0'), Q('2.0'), Q('2.50'), Q('0.0'), U('2'), ('filter', ('var', 2), I(1))]:
+            add(('filter', s, v), name)                      # numeric / non-numeric singleton predicates
+        for v in [S('a'), S('x'), U('x'), I(1), Q('1.0'), Dd(1), B(True), Dx(0.1), Q('0.1')]:
+            for op in ('eq', 'lt', 'le', 'ne', 'ge', 'gt'):
+                add(('filter', s, ('cmp', op, ('dot',), v)), 'item-comparison')
+            add(('some', [(5, s)], ('cmp', 'eq', ('var', 5), v)), 'item-comparison')
         add(('filter', s, ('last',)), name)
         add(('filter', s, ('ar', '-', ('last',), I(1))), name)
         add(('filter', s, ('cmp', 'eq', ('pos',), ('last',))), name)
@@ -839,7 +931,8 @@ class Gen:
         rng = self.rng
         size = rng.randint(1, 5)
         return (('i', rng.randint(0, 9)), rng.randint(1, size), size,
-                {0: [('i', rng.randint(0, 6)) for _ in range(rng.randint(0, 4))], 1: [('i', rng.randint(0, 5))]})
+                {0: [('i', rng.randint(0, 6)) for _ in range(rng.randint(0, 4))], 1: [('i', rng.randint(0, 5))],
+                 2: [('n', rng.randint(0, 8)) for _ in range(rng.randint(0, 5))]})
 
 
 def loop_var_in_range(e) -> bool:
@@ -983,6 +1076,47 @@ def random_cases(rng, n: int, maxdepth: int):
     return out
 
 
+def kernel_probe(run: Run):
+    """the shared arithmetic primitives of model and spec against CPython: `rnd` = float(Fraction),
+    `roundSig28` = Decimal division in the default 28-digit context"""
+    rng = run.rng
+    pairs = []
+    specials = [1, 3, 7, 10, 2 ** 52, 2 ** 53, 2 ** 53 + 1, 2 ** 53 - 1, 2 ** 54 + 2, 10 ** 22, 10 ** 23, 2 ** 1023, 2 ** 1024,
+                2 ** 1074, 10 ** 308, 10 ** 309, 5, 9007199254740993, 3 * 2 ** 52 + 1]
+    for n in specials:
+        for d in specials:
+            pairs.append((n, d)); pairs.append((-n, d))
+    for _ in range(run.scale(1500, 15000)):
+        nb, db = rng.choice([8, 30, 53, 54, 64, 120, 1100]), rng.choice([1, 8, 30, 53, 64, 120, 1100])
+        pairs.append((rng.getrandbits(nb) * rng.choice([1, -1]), rng.getrandbits(db) + 1))
+        k = rng.randint(0, 30)
+        pairs.append((rng.randint(-10 ** 20, 10 ** 20), 10 ** k))          # decimals
+    lines = [f'rnd={n}/{d}' for n, d in pairs]
+    ans = run.driver('C08', lines)
+    for (n, d), a in zip(pairs, ans):
+        run.stats.case({'rnd': f'{n}/{d}'}, nontrivial=False)
+        run.stats.count('kernel:rnd')
+        try:
+            exp = canon_item(float(Fraction(n, d)))
+        except OverflowError:
+            exp = 'd:inf' if n > 0 else 'd:-inf'
+        if exp == 'd:0/0' and n < 0:
+            exp = 'd:-0'                                            # float(Fraction) drops the sign of an underflow
+        if a != exp:
+            run.disagree(Disagreement({'kernel': 'rnd', 'n': n, 'd': d}, impl=exp, model=a, what='kernel-rnd',
+                                      site='EPV.Seq.rnd vs float(Fraction)'))
+    dpairs = [(rng.randint(-10 ** rng.randint(1, 25), 10 ** rng.randint(1, 25)), rng.randint(1, 10 ** rng.randint(1, 12)))
+              for _ in range(run.scale(800, 8000))]
+    ans = run.driver('C08', [f'sig28={n}/{d}' for n, d in dpairs])
+    for (n, d), a in zip(dpairs, ans):
+        run.stats.case({'sig28': f'{n}/{d}'}, nontrivial=False)
+        run.stats.count('kernel:sig28')
+        exp = canon_item(Decimal(n) / Decimal(d))
+        if a != exp:
+            run.disagree(Disagreement({'kernel': 'sig28', 'n': n, 'd': d}, impl=exp, model=a, what='kernel-sig28',
+                                      site='EPV.Seq.roundSig28 vs Decimal division'))
+
+
 # a few node-sequence probes: the structural functions are polymorphic, nodes are compared by index
 def node_probe(run: Run):
     import elementpath
@@ -1034,9 +1168,9 @@ def evaluate(run: Run, cases: list[Case], stats=True) -> list[dict]:
             continue
         f = parse_answer(ans)
         model, spec = f['model'], f['spec']
-        if f.get('mavg', '-') != '-':
-            model, spec = avg_expected(f['mavg']), avg_expected(f['savg'])
-        rec['model'], rec['spec'], rec['k'] = model, spec, f.get('k', '0')
+        rec['model'], rec['spec'], rec['k'], rec['q'] = model, spec, f.get('k', '0'), f.get('q', '0')
+        rec['lazy'] = f.get('lazy', spec)
+        rec['errs'] = set() if f.get('errs', '_') == '_' else set(f['errs'].split(','))
         t = text(c.expr)
         rec['impl'] = {pv: run_impl(t, c.ctx, pv) for pv in parsers_for(c.expr)}
         recs.append(rec)
@@ -1071,22 +1205,32 @@ def judge(run: Run, rec: dict, stats=True) -> list[Disagreement]:
             st.count('parser:' + pv)
         if impl == spec and impl == model:
             continue
-        if not c.strict and model == spec and spec.startswith('ERR'):
-            # random compositions: XPath 2.3.4 / 3.12 let an implementation skip a failing operand
-            # (lazy generators) and choose which of several errors it reports
-            if stats:
-                st.count('soft:lazy-avoided-error' if not impl.startswith('ERR') else 'soft:other-error-code')
-            if not impl.startswith('ERR:OTHER'):
+        errs, lazy = rec['errs'], rec['lazy']
+        if errs and rec.get('k') != '1':
+            # some subexpression raises: XPath 3.1 2.3.4 / 3.12 permit the value of the lazy evaluation
+            # and every reachable error code (Spec.Permitted, computed by the driver) -- nothing else
+            if impl == lazy and not lazy.startswith('ERR'):
+                if stats:
+                    st.count('permitted:lazy-value')
                 continue
+            if impl in errs:
+                if stats:
+                    st.count('permitted:other-reachable-error' if impl != spec else 'permitted:strict-error')
+                continue
+            spec = f'{spec} [permitted: value {lazy if not lazy.startswith("ERR") else "none"}; errors {",".join(sorted(errs))}]'
         d = c.describe()
         d['parser'] = {'20': 'XPath2Parser', '30': 'XPath30Parser', '31': 'XPath31Parser'}[pv]
         what = 'value' if impl != spec else 'model'
         # F08b: trigger predicate `Expr.loopVarInRange` computed by the driver from the expression
         tags = ['F08b'] if rec.get('k') == '1' and impl == 'ERR:XPST0008' else []
-        if tags and stats:
-            st.count('finding:F08b')
+        # F08q: trigger `!Spec.sumAgrees` / `!Spec.avgAgrees` computed by the driver (top-level sum / avg)
+        if rec.get('q') == '1' and impl == model:
+            tags = ['F08q']
+        for tg in tags:
+            if stats:
+                st.count('finding:' + tg)
         out.append(Disagreement(d, impl=impl, model=model, spec=spec, what=what,
-                                site="for/some/every nud" if tags else site_of(c.expr), tags=tags))
+                                site="for/some/every nud" if tags == ['F08b'] else site_of(c.expr), tags=tags))
     return out
 
 
@@ -1284,6 +1428,7 @@ def body(run: Run) -> int:
         for d in ds:
             run.disagree(d)
         node_probe(run)
+        kernel_probe(run)
     except DriverError as e:
         run.broken.append('driver:C08 ' + str(e)[:400])
     return run.finish('proof', shrink=make_shrink(run), search=search)
